@@ -73,6 +73,7 @@ class HookedArmV6(ArmV6):
         self.cplog = []
         self.cp_words = [0x11111111, 0x22222222]
         self.hints = []
+        self.barriers = []          # (domain, types) of every DSB the core asked the memory system for: part of the compared state
 
     def mark_exclusive_local(self, pa, pid, size):
         self.mon = (pa.physicaladdress, size)
@@ -109,6 +110,7 @@ class HookedArmV6(ArmV6):
 
     def data_synchronization_barrier(self, d, t):
         self.hints.append(('dsb',))
+        self.barriers.append((getattr(d, 'name', str(d)), getattr(t, 'name', str(t))))
 
     def instruction_synchronization_barrier(self):
         self.hints.append(('isb',))
@@ -214,6 +216,8 @@ def snapshot(cpu, with_mem=True):
             out['R.' + kk.name] = vv
     if hasattr(cpu, 'cplog'):
         out['cplog'] = tuple(cpu.cplog)
+    if hasattr(cpu, 'barriers'):
+        out['barriers'] = tuple(cpu.barriers)
     if hasattr(cpu, 'mon'):
         out['excl'] = tuple(cpu.mon) if cpu.mon else None        # local exclusive monitor of the hooked flavour
     out['wfe'] = cpu.is_wait_for_event
@@ -257,6 +261,9 @@ def apply_state(cpu, state):
             mem_fill(cpu.mem.memories[int(k[3:])].mem, 0, bytes(v))
         elif k == 'cplog':
             cpu.cplog = list(v)
+        elif k == 'barriers':
+            if hasattr(cpu, 'barriers'):
+                cpu.barriers = [tuple(x) for x in v]
         elif k == 'excl':
             if hasattr(cpu, 'mon'):
                 cpu.mon = tuple(v) if v else None
